@@ -65,6 +65,74 @@ def load_deps():
 DEPS = load_deps()
 
 
+def camel(sn):
+    parts = sn.split('_')
+    return parts[0] + ''.join(q[:1].upper() + q[1:] for q in parts[1:])
+
+
+# thin public wrappers whose model function has another name
+PUBLIC_OPS = {'small_vector::append#2': ['appendOther'], 'small_vector::append#3': ['appendOtherMove'],
+              'small_vector::append#0': ['appendRangeFwd', 'appendRangeInput'], 'small_vector::append#1': ['appendRangeFwd'],
+              'small_vector::emplace_back#0': ['appendElement'], 'small_vector::push_back#0': ['appendElement'], 'small_vector::push_back#1': ['appendElement'],
+              'small_vector::emplace#0': ['emplaceAt'], 'small_vector::insert#0': ['emplaceAt'], 'small_vector::insert#1': ['emplaceAt'],
+              'small_vector::insert#2': ['insertCopies'], 'small_vector::insert#3': ['insertRangeFwd', 'insertRangeInputMid', 'appendRangeInput'],
+              'small_vector::insert#4': ['insertRangeFwd'], 'small_vector::resize#0': ['resizeWith'], 'small_vector::resize#1': ['resizeWith'],
+              'small_vector::reserve#0': ['requestCapacity'], 'small_vector::shrink_to_fit#0': ['shrinkToSize'], 'small_vector::clear#0': ['eraseAll'],
+              'small_vector::pop_back#0': ['eraseLast'], 'small_vector::erase#0': ['eraseAt'], 'small_vector::erase#1': ['eraseRange'],
+              'small_vector::assign#0': ['assignWithCopies'], 'small_vector::assign#1': ['assignWithRangeFwd', 'assignWithRangeInput'],
+              'small_vector::swap#0': ['swap']}
+
+
+# primitives of allocator_interface whose model function has another name (any overload)
+PRIM_OPS = {'uninitialized_copy': ['uninitGen'], 'default_uninitialized_copy': ['uninitGen'], 'uninitialized_fill': ['uninitGen'],
+            'uninitialized_value_construct': ['uninitGen'], 'uninitialized_default_construct': ['uninitGen'],
+            'destroy_range': ['destroyRange'], 'destroy': ['destroyAt'], 'construct': ['constructSrc'],
+            'copy_range': ['assignGen'], 'copy_n_return_in': ['assignGen'], 'move_right': ['moveBackward'], 'move_left': ['moveLeft'],
+            'unchecked_calculate_new_capacity': ['newCapacity'], 'external_range_length': ['appendRangeFwd', 'assignWithRangeFwd', 'insertRangeFwd', 'ctorFill']}
+
+
+def model_ops_of(cxx_key, all_cxx, ops):
+    """the hand-written model functions transliterated from the C++ function `cls::fn#k`: the model functions whose name
+    starts with camel(fn) and for which no LONGER C++ function name is a prefix (swapDefault belongs to swap_default, not swap)"""
+    if cxx_key in PUBLIC_OPS:
+        return set(PUBLIC_OPS[cxx_key]) & set(ops) or set(PUBLIC_OPS[cxx_key])
+    cls, rest = cxx_key.split('::', 1)
+    fn = rest.split('#')[0]
+    if cls == 'small_vector':
+        return set()
+    if fn in PRIM_OPS:
+        return set(PRIM_OPS[fn])
+    cn = camel(fn)
+    names = sorted(set(camel(k.split('::', 1)[1].split('#')[0]) for k in all_cxx if not k.startswith('small_vector::')), key=len, reverse=True)
+    out = set()
+    for o in ops:
+        if not o.startswith(cn):
+            continue
+        best = next((n for n in names if o.startswith(n)), None)
+        if best == cn:
+            out.add(o)
+    return out
+
+
+def skeleton_problems(prop, rep):
+    """changed call skeletons (tools/translate.py) of C++ functions whose hand-written model body one of this property's
+    theorems is about"""
+    ch = rep.get('skeleton_changes') or []
+    if not ch:
+        return []
+    ops = set(DEPS.get(prop, {}).get('ops', []))
+    base_p = os.path.join(vlib.VERIF, 'tools', 'gen_baseline', 'skeletons.json')
+    all_cxx = list(json.load(open(base_p)).keys()) if os.path.exists(base_p) else []
+    out = []
+    for c in ch:
+        hit = model_ops_of(c['function'], all_cxx, ops) & ops
+        if hit:
+            out.append(dict(theorem='(model body) ' + ', '.join(sorted(hit)),
+                            why='the body of %s (hpp:%s) no longer has the call structure the hand-written model function was transliterated from: was [%s], is [%s]'
+                                % (c['function'], c.get('line'), c.get('before'), c.get('after'))))
+    return out
+
+
 def relevant_untranslatable(prop, items):
     """which of the translator's complaints concern this property: a generated definition concerns a property iff one
     of the property's theorems mentions it (transitively; computed by Lean, tools/mkdeps.py -> properties.deps.json);
@@ -105,6 +173,7 @@ def collect(prop, tier, seed):
         proof.append(dict(theorem='(translator) ' + u.get('item', '?'), why='source construct outside the translator subset: ' + u.get('why', '')))
     for h in lean['forbidden']:
         proof.append(dict(theorem='(audit)', why='forbidden token: ' + h))
+    proof += skeleton_problems(prop, lean.get('translate', {}))
     if lean['build_rc'] != 0 and lean['broken']:
         closure = vlib.import_closure(P['modules'])
         for m, e in lean['build_errors'].items():
